@@ -18,6 +18,7 @@ import (
 //   U <q> <lo> <hi> <step>         every \uHHHH with lo <= HHHH < hi, stride step
 //   P <q> <seed> <count>           sampled \u{H..H} up to 10FFFF (leading zeros, both cases)
 //   A <q>                          every ASCII byte raw and backslash-escaped
+//   G <q> <b>                      long literals: multi-byte escape units at every offset around byte b
 //   C <seed> / B <seed> / N <seed> / R <seed>
 //                                  batch of random concatenated strings / backtick strings /
 //                                  numeric literals / raw non-ASCII strings
@@ -26,7 +27,7 @@ import (
 
 func init() {
 	oracles["C07"] = &oracle{
-		rule:  "string literals: every \\xHH and ASCII byte raw/escaped (both quote styles), \\uHHHH (thorough: all 65536; quick: stride + boundary ranges), sampled \\u{H..H} <= 10FFFF, random concatenations of escape units / raw text / line continuations / non-ASCII, backtick strings (escaped backticks, backslashes, ${..}, LF/CRLF/CR, trailing blanks), numeric literal shapes with random digits; x 6 program templates (top level, function body, array, object value, object key, nested blocks) x {compact, pretty 2sp+semi, pretty tab no-semi}; non-trivial = at least one literal accepted by node and xjs; distinct by input line",
+		rule:  "string literals: every \\xHH and ASCII byte raw/escaped (both quote styles), \\uHHHH (thorough: all 65536; quick: stride + boundary ranges), sampled \\u{H..H} <= 10FFFF, long literals with multi-byte units at every offset around bytes 64/128/256/512, random concatenations of escape units / raw text / line continuations / non-ASCII, backtick strings (escaped backticks, backslashes, ${..}, LF/CRLF/CR, trailing blanks), numeric literal shapes with random digits; x 6 program templates (top level, function body, array, object value, object key, nested blocks) x {compact, pretty 2sp+semi, pretty tab no-semi}; non-trivial = at least one literal accepted by node and xjs; distinct by input line",
 		gen:   genC07,
 		check: checkC07,
 	}
@@ -80,6 +81,11 @@ func genC07(r *rng, n int, tier string) []string {
 				fmt.Sprintf("U %s %d %d 1", q, 0xFEF0, 0xFF00),
 				fmt.Sprintf("U %s %d %d 1", q, 0xFFF0, 0x10000),
 				fmt.Sprintf("U %s %d 65536 61", q, 256+r.intn(61)))
+		}
+	}
+	for _, q := range []string{"s", "d"} {
+		for _, b := range []int{64, 128, 256, 512} {
+			out = append(out, fmt.Sprintf("G %s %d", q, b))
 		}
 	}
 	np := 4
@@ -408,6 +414,10 @@ func c07Items(line string) []c07Item {
 			add("ascii-raw", q+string(rune(c))+q)
 			add("ascii-esc", q+`\`+string(rune(c))+q)
 			add("ascii-esc+", q+"a"+`\`+string(rune(c))+"1"+q)
+		}
+	case "G": // multi-byte units at every offset around byte <b> of a long literal
+		for _, l := range longLiterals(quoteOf(f[1]), []int{atoi(2)}) {
+			add("long", l)
 		}
 	case "C":
 		r := newRng(uint64(atoi(1)), "c07c")
